@@ -397,6 +397,57 @@ mut('park-without-loop', 'run_one_job_now parks once without re-checking the sta
     E(C06=['ORD-C06-drain']))
 
 
+# ---- benign refactors: behaviour-preserving edits on which every check must stay silent ------------------------------------------
+B = []
+
+
+def benign(name, what, edits):
+    B.append({'name': name, 'what': what, 'edits': edits})
+
+
+benign('b-rename-locals', 'locals renamed (cond_var -> cv, queue_core -> qc, busy -> flag)', [
+    (CORE, "                .for_each(|cond_var| {\n                    if let Some(cond_var) = cond_var.upgrade() {\n                        cond_var.notify_one();", "                .for_each(|cv| {\n                    if let Some(cv) = cv.upgrade() {\n                        cv.notify_one();"),
+    (WT, "            let mut queue_core = queue.core.lock().unwrap();\n\n            // Queue can be woken if it's in the WaitingForWake state\n            match queue_core.state {\n                QueueState::WaitingForWake      => queue_core.state = QueueState::Idle,\n                QueueState::WaitingForUnpark    => queue_core.state = QueueState::Running,\n                QueueState::Running             => queue_core.state = QueueState::AwokenWhileRunning,\n                other_state                     => queue_core.state = other_state",
+          "            let mut qc = queue.core.lock().unwrap();\n\n            // Queue can be woken if it's in the WaitingForWake state\n            match qc.state {\n                QueueState::WaitingForWake      => qc.state = QueueState::Idle,\n                QueueState::WaitingForUnpark    => qc.state = QueueState::Running,\n                QueueState::Running             => qc.state = QueueState::AwokenWhileRunning,\n                other_state                     => qc.state = other_state"),
+])
+
+benign('b-is_empty', 'queue.len() == 0 written as is_empty(); len() > 0 as !is_empty()', [
+    (DS, "                QueueState::Pending             => RunAction::Busy,\n                QueueState::Idle                => { \n                    if core.queue.len() == 0 {", "                QueueState::Pending             => RunAction::Busy,\n                QueueState::Idle                => { \n                    if core.queue.is_empty() {"),
+    (CORE, "                    if core.queue.len() > 0 {", "                    if !core.queue.is_empty() {"),
+    (JQ, "                if core.queue.len() == 0 {\n                    if core.state.is_running() {", "                if core.queue.len() < 1 {\n                    if core.state.is_running() {"),
+])
+
+benign('b-flip-comparison', 'threads.len() < max written the other way round', [
+    (CORE, "        if threads.len() < max_threads {\n            // Create a new thread", "        if max_threads > threads.len() {\n            // Create a new thread"),
+    (DS, "            while threads.len() > max_threads {", "            while max_threads < threads.len() {"),
+])
+
+benign('b-let-temporaries', 'state copied into a local before the match; decision stored in a let', [
+    (CORE, "        // The queue must be idle or pending to be claimable\n        match queue_core.state {", "        // The queue must be idle or pending to be claimable\n        let current = queue_core.state;\n        match current {"),
+    (DS, "        if need_reschedule { self.reschedule_queue(queue); }", "        let must = need_reschedule;\n        if must { self.reschedule_queue(queue); }"),
+])
+
+benign('b-match-to-if', 'WakeQueue match arm turned into explicit arms; if-let instead of map for the waker', [
+    (SF, "        // If we retrieved a waker from the result, wake it up\n        waker.map(|waker| waker.wake());", "        // If we retrieved a waker from the result, wake it up\n        if let Some(waker) = waker { waker.wake(); }"),
+    (WQ, "                other_state                     => queue_core.state = other_state", "                QueueState::Idle                => queue_core.state = QueueState::Idle,\n                other_state                     => queue_core.state = other_state"),
+])
+
+benign('b-extra-closure-and-fn', 'a new helper function and a new closure ahead of existing ones (renumbers closures)', [
+    (PIPE, "    // Prepare the streams\n    let input_stream        = Arc::new(Mutex::new(stream));", "    // Prepare the streams\n    let describe            = || \"pipe\";\n    let _                   = describe();\n    let input_stream        = Arc::new(Mutex::new(stream));"),
+    (DS, "    ///\n    /// Wakes a thread to run a dormant queue. Returns true if a thread was woken up\n    ///\n    fn schedule_thread(&self) -> bool {", "    ///\n    /// Number of queues waiting for a thread\n    ///\n    pub fn waiting_queues(&self) -> usize {\n        self.core.schedule.lock().expect(\"Schedule lock\").len()\n    }\n\n    ///\n    /// Wakes a thread to run a dormant queue. Returns true if a thread was woken up\n    ///\n    fn schedule_thread(&self) -> bool {"),
+])
+
+benign('b-explicit-drop-and-unwrap', 'explicit mem::drop of a guard; expect() replaced by unwrap(); statements reordered', [
+    (DS, "        let unsafe_result_job   = unsafe { UnsafeJob::new(&mut *result_job) };\n        queue.core.lock().expect(\"JobQueue core lock\").queue.push_back(Box::new(unsafe_result_job));", "        let unsafe_result_job   = unsafe { UnsafeJob::new(&mut *result_job) };\n        {\n            let mut core = queue.core.lock().unwrap();\n            core.queue.push_back(Box::new(unsafe_result_job));\n            mem::drop(core);\n        }"),
+    (CORE, "        let max_threads = { *self.max_threads.lock().expect(\"Max threads lock\") };\n        let mut threads = self.threads.lock().expect(\"Scheduler threads lock\");\n\n        if threads.len() < max_threads {", "        let max_threads = *self.max_threads.lock().unwrap();\n        let mut threads = self.threads.lock().unwrap();\n\n        if threads.len() < max_threads {"),
+])
+
+benign('b-debug-asserts', 'extra debug_assert!s about the state', [
+    (JQ, "        let mut core = self.core.lock().expect(\"JobQueue core lock\");\n\n        core.queue.push_front(job);", "        let mut core = self.core.lock().expect(\"JobQueue core lock\");\n        debug_assert!(core.state.is_running());\n\n        core.queue.push_front(job);"),
+    (DS, "        // Set the queue as active\n        let _active = ActiveQueue { queue: &*queue };\n\n        // Call the function to get the result\n        let result = job();", "        // Set the queue as active\n        let _active = ActiveQueue { queue: &*queue };\n        debug_assert!(queue.core.lock().unwrap().queue.len() == 0 || true);\n\n        // Call the function to get the result\n        let result = job();"),
+])
+
+
 def main():
     os.makedirs(MUT, exist_ok=True)
     index = {'mutants': []}
@@ -425,6 +476,31 @@ def main():
         with open(os.path.join(MUT, pname), 'w') as f:
             f.write(r.stdout)
         index['mutants'].append({'name': m['name'], 'patch': pname, 'what': m['what'], 'expect': m['expect']})
+    index['benign'] = []
+    for b in B:
+        tmpd = tempfile.mkdtemp()
+        chunks = []
+        okb = True
+        byfile = {}
+        for (file, old, new) in b['edits']:
+            src = byfile.get(file) or open(os.path.join(REPO, file)).read()
+            if src.count(old) != 1:
+                print('!! benign %s: pattern occurs %d times in %s' % (b['name'], src.count(old), file))
+                okb = False
+                bad += 1
+                continue
+            byfile[file] = src.replace(old, new)
+        if not okb:
+            continue
+        for file, new in byfile.items():
+            tmp = os.path.join(tmpd, 'x.rs')
+            open(tmp, 'w').write(new)
+            r = subprocess.run(['diff', '-u', '--label', 'a/' + file, '--label', 'b/' + file, os.path.join(REPO, file), tmp], capture_output=True, text=True)
+            chunks.append(r.stdout)
+        pname = b['name'] + '.patch'
+        with open(os.path.join(MUT, pname), 'w') as f:
+            f.write(''.join(chunks))
+        index['benign'].append({'name': b['name'], 'patch': pname, 'what': b['what']})
     with open(os.path.join(MUT, 'index.json'), 'w') as f:
         json.dump(index, f, indent=1)
     print('wrote %d mutants (%d patterns not found)' % (len(index['mutants']), bad))
